@@ -200,19 +200,20 @@ def work_multi(case: Any) -> Any:
     """the DBOS runtime migrates with two sources, [server, dbos], on databases that a server-only deployment (or an older
     version) has already brought to some server version"""
     start, _tag, server_only_first = case
+    sources = FULL_SOURCES if _tag == "multi" else list(reversed(FULL_SOURCES))  # "multi_rev": the other package listed first
     d = tempfile.mkdtemp(prefix="vmc-c28m-")
     v: list[Any] = []
     try:
         rp = os.path.join(d, "refm.db")
         c = sqlite3.connect(rp)
-        M.run_migrations(c, sources=FULL_SOURCES)
+        M.run_migrations(c, sources=sources)
         c.commit()
         ref = (schema(c), versions(c))
         c.close()
         path = os.path.join(d, "t.db")
         build_start(path, tuple(start))
-        w = {"start": start[0], "sources": "server+dbos", "server_only_run_first": server_only_first}
-        desc = f"start={start} sources=[server, dbos] server-only run first={server_only_first}"
+        w = {"start": start[0], "sources": "server+dbos" if _tag == "multi" else "dbos+server", "server_only_run_first": server_only_first}
+        desc = f"start={start} sources={[n for n, _ in sources]} server-only run first={server_only_first}"
         if server_only_first:
             c = sqlite3.connect(path)
             M.run_migrations(c)
@@ -222,7 +223,7 @@ def work_multi(case: Any) -> Any:
         for i in range(2):
             c = sqlite3.connect(path)
             try:
-                M.run_migrations(c, sources=FULL_SOURCES)
+                M.run_migrations(c, sources=sources)
                 c.commit()
             except Exception as e:  # noqa: BLE001
                 v.append(("migration_run_fails", {**w, "run": "first" if i == 0 else "repeat"}, f"{desc}: run {i + 1} raised {type(e).__name__}: {e}"))
@@ -250,7 +251,7 @@ def work_multi(case: Any) -> Any:
 
 
 def work(case: Any) -> Any:
-    if len(case) == 3 and case[1] == "multi":
+    if len(case) == 3 and case[1] in ("multi", "multi_rev"):
         return work_multi(case)
     if len(case) == 3:
         return work_fault(case)
@@ -317,7 +318,7 @@ RULE = ("every starting schema {fresh; schema_migrations recorded up to k = 1..N
 "pre-existing data row, observed through a separate connection after every run, compared with a freshly migrated database; "
         "plus, for every starting schema, one run in which the f-th schema-changing operation is refused by an SQLite "
         "authorizer (f = 1 .. number of such operations in a fresh run + 1): the abandoned file must sit at a version boundary and the following runs must converge; "
-        "plus every starting schema migrated with the two sources [server, dbos] (directly, and after a server-only run); "
+        "plus every starting schema migrated with the two sources [server, dbos] and [dbos, server] (directly, and after a server-only run); "
         "non-trivial = non-fresh start or repeated run")
 
 
@@ -348,7 +349,7 @@ def run(tier: str, seed: int) -> Any:
     # operation of a run are vacuous and counted as trivial)
     cases += [(s, "fault", f) for s in starts for f in range(1, _schema_ops_of_fresh_run() + 2)]
     # two migration sources (what the DBOS runtime passes), also after a server-only run brought the server part up to date
-    cases += [(s, "multi", first) for s in starts for first in (False, True)]
+    cases += [(s, tag, first) for s in starts for first in (False, True) for tag in ("multi", "multi_rev")]
     return run_grid(PID, RULE, cases, work, seed=seed, chunksize=2, assumptions=[
         "an 'earlier schema' is what the repository's own migration files produce up to version k (with or without the bookkeeping table)",
         "single process, no concurrent migrator"], extra={"migrations": n, "starts": len(starts)})
